@@ -6,9 +6,12 @@
         gc     -> "OK a1,a2,..." (addresses present after mark+sweep, ascending; all unmarked) | "ERR <kind>"
         layout -> "OK p.ns.size;..." per object in request order ("?" when the model has no layout)
         wf     -> "OK 1" | "OK 0"   (heap_ok)
-        all    -> "L <layout> | W <0/1> | M <marked> | G <survivors>"  (one parse of the heap for the four answers) *)
+        all    -> "L <layout> | W <0/1> | M <marked> | G <survivors>"  (one parse of the heap for the four answers)
+   or the single word  gcmacros  -> "OK K:chain:release;..." (see below) *)
 open Model
 open Common
+(* the extracted GcMacros model brings Coq's [string] type with it: in this file `string` is OCaml's *)
+type string = Stdlib.String.t
 
 (* hex -> Z without the intermediate bit string of Common.z_of_hex (the dumps carry ~10^5 words) *)
 let z_of_hex_fast (s : string) : z =
@@ -87,6 +90,18 @@ let handle = function
              let clear = PositiveMap.fold (fun _ o acc -> acc && not o.marked) h2 true in
              "L " ^ lay ^ " | W " ^ wf ^ " | M " ^ addrs_of h1 (fun o -> o.marked) ^ " | G " ^ (if clear then addrs_of h2 (fun _ -> true) else "ERR mark-left-set"))
       | _ -> "ERR unknown command")
+  | ["gcmacros"] ->
+     (* the regenerated macro table run through the extracted model: K:chain:release;...  chain = 1-based argument
+        positions in the order the marker visits them, 0 = the caller's list, "?" = cyclic / unknown *)
+     "OK " ^ String.concat ";" (List.map (fun (k, (ch, rel)) ->
+       Printf.sprintf "%d:%s:%s" (int_of_nat k)
+         (match ch with Some l -> String.concat "," (List.map (fun i -> string_of_int (int_of_nat i)) l) | None -> "?")
+         (if rel then "1" else "0")) gc_macro_report)
+  | ["pres"; ops] ->
+     (* sexp_preserve_object / sexp_release_object: ops = p<id>,r<id>,... from the empty list; answer = ids on the list, head first *)
+     let parse s = ((s.[0] = 'p'), nat_of_int (int_of_string (String.sub s 1 (String.length s - 1)))) in
+     let l = run_ops (List.map parse (List.filter (fun s -> s <> "") (String.split_on_char ',' ops))) [] in
+     "OK " ^ String.concat "," (List.map (fun i -> string_of_int (int_of_nat i)) l)
   | f -> "ERR bad request (" ^ string_of_int (List.length f) ^ " fields)"
 
 let () = serve handle
